@@ -122,6 +122,12 @@ impl Tiny {
     }
 }
 
+impl Tiny {
+    pub fn case_of(&self, id: u64) -> (Prob, SettingsSpec) {
+        self.decode(id)
+    }
+}
+
 impl Space for Tiny {
     fn name(&self) -> String {
         format!(
@@ -391,6 +397,13 @@ impl Planted {
             apply_dev(&mut p, dv);
         }
         (p, ss, chosen)
+    }
+}
+
+impl Planted {
+    pub fn case_of(&self, id: u64) -> (Prob, SettingsSpec) {
+        let (p, ss, _) = self.decode(id);
+        (p, ss)
     }
 }
 
